@@ -3,7 +3,8 @@
 //   * join over vector / list / deque of std::string with char, std::string, const std::string and string-literal
 //     delimiters (the main harness covers deque<std::string> + const char*), and join(split(s, d), d) == s with
 //     char / std::string delimiters (including the NUL delimiter, which a C string cannot express);
-//   * strip_trailing_zeroes<std::wstring>, strip_multiline_comments<std::wstring>.
+//   * strip_trailing_zeroes<std::wstring>, strip_multiline_comments<std::wstring>;
+//   * join re-entrancy: items whose conversion to std::string calls join, iterators that compute join(split(row)).
 // Same oracles (c08_ref.hh), same violation keys as the main harness.  If this TU does not compile against a
 // tree, the driver skips the stage and the main harness still runs.
 #include <ctype.h>
@@ -37,6 +38,146 @@ static vf::Ctx* C;
 
 #define C08_ALL_INSTANTIATIONS 1
 #include "c08_join.hh"
+
+
+// ------------------------------------------------------------------------------------------------
+// Re-entrancy: join must still equal the plain definition when producing an item's text itself runs join
+// (or split + join) on the same thread — an item type whose conversion to std::string joins its children,
+// and a container whose iterator computes join(split(row)) on dereference.
+struct JoinRow {
+  vector<string> children;
+  operator std::string() const {
+    const char* sep = "+";
+    return phosg::join(children, sep);
+  }
+};
+
+struct SplitJoinView {  // *it == join(split(rows[i], ' '), "-"), computed lazily
+  const vector<string>* rows;
+  struct iterator {
+    const vector<string>* rows;
+    size_t i;
+    string operator*() const {
+      const char* sep = "-";
+      return phosg::join(phosg::split((*rows)[i], ' '), sep);
+    }
+    iterator& operator++() {
+      ++i;
+      return *this;
+    }
+    bool operator!=(const iterator& o) const { return i != o.i; }
+  };
+  iterator begin() const { return iterator{rows, 0}; }
+  iterator end() const { return iterator{rows, rows->size()}; }
+};
+
+static void reentrancy_one(const vector<vector<string>>& rows_children, uint64_t id) {
+  // (1) item conversion joins the children
+  vector<JoinRow> rows;
+  vector<string> flat;  // what each item's text is, by the reference join
+  for (const auto& ch : rows_children) {
+    rows.push_back(JoinRow{ch});
+    flat.push_back(R::join_ref(ch.begin(), ch.end(), string("+")));
+  }
+  auto describe = [&]() {
+    string d = "{";
+    for (size_t i = 0; i < rows_children.size(); i++) d += (i ? ", " : "") + esc_list(rows_children[i]);
+    return d + "}";
+  };
+  {
+    C->evaluations++;
+    C->crumb_n("join-reentrant:conversion", id, rows.size());
+    const char* sep = ",";
+    PZ();
+    string got = phosg::join(rows, sep);
+    string want = R::join_ref(flat.begin(), flat.end(), string(","));
+    if (got != want)
+      C->violation("join:reentrant:item-conversion", "join(items, \",\") differs when an item's operator std::string() itself calls join",
+          fmt("rows (children joined with \"+\" by the conversion) %s: got %s, expected %s", describe().c_str(), esc(got).c_str(), esc(want).c_str()));
+    C->evaluations++;
+    PZ();
+    got = phosg::join(rows);
+    want = R::join_ref(flat.begin(), flat.end(), string());
+    if (got != want)
+      C->violation("join:reentrant:item-conversion:no-delimiter", "join(items) differs when an item's operator std::string() itself calls join",
+          fmt("rows %s: got %s, expected %s", describe().c_str(), esc(got).c_str(), esc(want).c_str()));
+  }
+  // (2) iterator dereference computes join(split(row, ' '), "-")
+  {
+    vector<string> lines, texts;
+    for (const auto& ch : rows_children) {
+      string line = R::join_ref(ch.begin(), ch.end(), string(" "));
+      lines.push_back(line);
+      vector<string> parts = R::split_at(line, R::all_occurrences(line, ' '), 0);
+      texts.push_back(R::join_ref(parts.begin(), parts.end(), string("-")));
+    }
+    SplitJoinView view{&lines};
+    C->evaluations++;
+    C->crumb_n("join-reentrant:iterator", id, lines.size());
+    const char* sep = ";";
+    PZ();
+    string got = phosg::join(view, sep);
+    string want = R::join_ref(texts.begin(), texts.end(), string(";"));
+    if (got != want)
+      C->violation("join:reentrant:iterator", "join(view, \";\") differs when dereferencing the iterator runs join(split(row))",
+          fmt("lines %s: got %s, expected %s", esc_list(lines).c_str(), esc(got).c_str(), esc(want).c_str()));
+  }
+}
+
+static void reentrancy_part(vf::Rng& r) {
+  static const string CH[3] = {"", "a", "b,"};
+  // every list of up to 3 rows, each row up to 3 children from CH: rows are numbered 0..39 (1+3+9+27 child lists)
+  vector<vector<string>> all_rows;
+  for (unsigned n = 0; n <= 3; n++) {
+    unsigned cnt = 1;
+    for (unsigned k = 0; k < n; k++) cnt *= 3;
+    for (unsigned x = 0; x < cnt; x++) {
+      vector<string> ch;
+      unsigned y = x;
+      for (unsigned k = 0; k < n; k++) {
+        ch.push_back(CH[y % 3]);
+        y /= 3;
+      }
+      all_rows.push_back(ch);
+    }
+  }
+  size_t R0 = all_rows.size();  // 40
+  unsigned maxrows = C->qt(2u, 3u);
+  uint64_t total = pow_sum(R0, maxrows), idx = 0;
+  uint64_t n_nested = 0;
+  for (idx = 0; idx < total; idx++) {
+    if (!C->mine(idx)) continue;
+    uint64_t x = idx, p = 1;
+    unsigned len = 0;
+    while (x >= p) {
+      x -= p;
+      p *= R0;
+      len++;
+    }
+    vector<vector<string>> rows(len);
+    for (unsigned k = 0; k < len; k++) {
+      rows[len - 1 - k] = all_rows[x % R0];
+      x /= R0;
+    }
+    reentrancy_one(rows, idx);
+    n_nested += len > 0;
+  }
+  uint64_t n = C->qt<uint64_t>(500, 20000) / C->nshards + 1;
+  for (uint64_t i = 0; i < n; i++) {
+    vector<vector<string>> rows(r.below(12));
+    for (auto& ch : rows) {
+      ch.resize(r.below(6));
+      for (auto& c : ch) {
+        c = r.bytes(r.below(r.chance(1, 10) ? 300 : 6));
+        for (char& b : c)
+          if (b == ' ') b = '_';  // the iterator view splits lines on ' '
+      }
+    }
+    reentrancy_one(rows, ((uint64_t)C->shard << 40) | i);
+  }
+  C->cls("join:reentrant:item-conversion", n_nested + n);
+  C->cls("join:reentrant:iterator", n_nested + n);
+}
 
 static void composite_part() {
   static const char A[8] = {',', 'a', ' ', '(', ')', '"', '\\', '\0'};
@@ -157,6 +298,7 @@ int main(int argc, char** argv) {
   auto want = [&](const char* s) { return only.empty() || only == s; };
   if (want("join")) join_suite(r);
   if (want("composite")) composite_part();
+  if (want("reentrant")) reentrancy_part(r);
   if (want("strip")) wide_strip_part(r);
   c.sample("join over vector/list/deque<string> x {char, char NUL, const char*, std::string, const std::string with NUL, literal}; join(split(s,d,ms),d)==s with char/std::string delimiters; strip_trailing_zeroes<wstring>, strip_multiline_comments<wstring>");
   return c.finish();
